@@ -426,6 +426,22 @@ func c06run(sc *sim.Scenario, env *sim.Env, st *sim.Stats, observe bool) c06resu
 				if st != nil {
 					st.Probe("block_through_clone")
 				}
+				if sc.Seed&128 != 0 && seg.orig != nil {
+					// the caller names the block's start on the original while the block itself is
+					// being generated into the clone (label 11, if it is still free)
+					lop := sim.Op{K: "label", N: []int64{11}}
+					if _, taken := m.Labels[labelName(11)]; !taken {
+						m.step(lop)
+						if p, msg := asmApply(seg.orig, lop); p {
+							return viol(i, "refusal_mismatch", "Label on the original while a clone is in flight panicked: %s", msg)
+						}
+						mSave = m.clone() // the label is the original's own: it stays if the block is refused
+						mSave.NoCap = false
+						if st != nil {
+							st.Probe("label_on_original_while_clone_in_flight")
+						}
+					}
+				}
 			}
 			continue
 		}
